@@ -144,8 +144,6 @@ class Batch(scn_c08.Batch):
         if pool_file:
             a += ["--sample-pool", pool_file]
         rep = sorted(set(cfg["report"]))
-        if program == "assemble":
-            rep = [x for x in rep if x != "GP"]  # observation O2 (see scn_c08.base_args)
         if rep:
             a += ["--report"] + rep
         extra = self.mcmc_args(program)
@@ -293,7 +291,28 @@ def install_interference(ctx, m, kind):
     return saved
 
 
+class SkipBatch(Exception):
+    pass
+
+
+def failed(ctx, program, cls, message, r):
+    """A run that fails although the all-samples run succeeded is a violation - unless it is observation O2
+    (assemble --report GP raises IndexError whenever the reference haplotype is masked, which depends on
+    which samples are present): then the batch is skipped."""
+    if program == "assemble" and scn_c08.is_o2(r["error"]):
+        ctx.counters.inc("o2_gp_refmasked_skip")
+        raise SkipBatch()
+    raise Violation(cls, message % (r["error"],), step=ctx.step)
+
+
 def run_batch(ctx, b):
+    try:
+        return _run_batch(ctx, b)
+    except SkipBatch:
+        ctx.log.add("skip", "O2")
+
+
+def _run_batch(ctx, b):
     cfg = ctx.config
     m = bootstrap()
     program = cfg["program"]
@@ -372,7 +391,7 @@ def run_batch(ctx, b):
             recs, r = run([s])
             ctx.counters.inc("solo_runs")
             if recs is None:
-                raise Violation("solo_run_failed", "sample %s analysed alone fails although the joint run succeeds: %r" % (s, r["error"]), step=ctx.step)
+                failed(ctx, program, "solo_run_failed", "sample " + s + " analysed alone fails although the joint run succeeds: %r", r)
             solo[s] = recs
             compare_runs(ctx, program, "solo", joint, recs, [s])
             ctx.key(program, cfg["data_seed"], "solo", s, cfg["interference"])
@@ -388,7 +407,7 @@ def run_batch(ctx, b):
             if cfg["cores"] > 1:
                 ctx.counters.inc("multi_core_runs")
             if recs is None:
-                raise Violation("permuted_run_failed", "run with permuted BAM arguments fails: %r" % (r["error"],), step=ctx.step)
+                failed(ctx, program, "permuted_run_failed", "run with permuted BAM arguments fails: %r", r)
             compare_runs(ctx, program, "permuted", joint, recs, samples, full=True)
             ctx.key(program, cfg["data_seed"], "perm", tuple(order), cfg["interference"])
         # subset
@@ -401,7 +420,7 @@ def run_batch(ctx, b):
             recs, r = run(sub)
             ctx.counters.inc("subset_runs")
             if recs is None:
-                raise Violation("subset_run_failed", "run on a subset of samples fails: %r" % (r["error"],), step=ctx.step)
+                failed(ctx, program, "subset_run_failed", "run on a subset of samples fails: %r", r)
             compare_runs(ctx, program, "subset", joint, recs, sub)
             for s in sub:
                 compare_runs(ctx, program, "solo-vs-subset", recs, solo[s], [s])
@@ -458,12 +477,12 @@ def run_batch(ctx, b):
                                         detail={"by_name": (r_name.get(lid) or {}).get("line", "")[:300], "by_file": r_file[lid]["line"][:300]})
             ctx.counters.inc("pool_runs")
             if prec is None:
-                raise Violation("pool_run_failed", "pooled run fails: %r" % (r["error"],), step=ctx.step)
+                failed(ctx, program, "pool_run_failed", "pooled run fails: %r", r)
             merged = merge_bams(b, m, ds, pools)
             mrec, r = run(pool_names, bams=merged, pf=pf_pool, inb=inb_pool)
             ctx.counters.inc("merged_runs")
             if mrec is None:
-                raise Violation("merged_run_failed", "run on physically merged BAMs fails: %r" % (r["error"],), step=ctx.step)
+                failed(ctx, program, "merged_run_failed", "run on physically merged BAMs fails: %r", r)
             for lid in prec:
                 if lid not in mrec:
                     raise Violation("pool_differs_from_merged", "locus %s missing from the merged-BAM run" % lid, step=ctx.step)
@@ -588,8 +607,14 @@ def compare_runs(ctx, program, kind, ref_recs, other, samples, full=False, cls=N
                 if orec["refmasked"] and not rrec["refmasked"]:
                     ctx.counters.inc("refmasked_solo_only")
             ploidy_s = len(ga)
-            for k in ("GL",):
+            for k in ("GL", "GP"):
                 ma, mo = per_genotype(rrec, a, k, ploidy_s), per_genotype(orec, o, k, ploidy_s)
+                if k == "GP" and (rrec["refmasked"] or orec["refmasked"]):
+                    continue  # with a masked reference the G-length array is sized differently (O2 territory)
+                if (ma is None) != (mo is None) and k in a and k in o and a[k] not in (".", "") and o[k] not in (".", ""):
+                    raise Violation(cls, "%s: %s of %s at %s has %d values in one run and %d in the other for %d / %d alleles" % (
+                        kind, k, s, lid, len(a[k].split(",")), len(o[k].split(",")), len(rrec["seqs"]), len(orec["seqs"])), step=ctx.step,
+                        detail={"kind": kind, "sample": s, "locus": lid, "field": k})
                 if ma is None or mo is None:
                     continue
                 for gk in set(ma) & set(mo):
